@@ -22,7 +22,7 @@ denotes, rendered as its canonical text (`sdk.AccAddressFromBech32(a)` followed 
 is a PARAMETER of the model like `H`; nothing is assumed about it.  The stored lists (owners,
 data access, parties, specification owners) and every comparison the Go code makes on strings
 (`Scope.AddDataAccess`, `RemoveOwners`, `ValidatePartiesAreUnique`, `FindMissing` on
-`OwnerAddresses`, …) are on the TEXT; index keys (`GetAddressScopeCacheKey`, …) and the bank
+`OwnerAddresses` before 2f403d307, …) are on the TEXT; index keys (`GetAddressScopeCacheKey`, …) and the bank
 module's coin holder are the account, i.e. `B` of the text.
 
 What is abstracted: signature/role validation (x/metadata/keeper/signers.go — the harness signs
@@ -88,12 +88,12 @@ def reindex {β κ : Type} [DecidableEq β] [DecidableEq κ] (k : κ) (newVals o
   idelAll ((findMissing oldVals newVals).map (fun b => (b, k)))
     (isetAll ((findMissing newVals oldVals).map (fun b => (b, k))) idx)
 
-/-- The same, for an index whose values are DIFFED AS TEXTS (`provutils.FindMissing` on the
-`OwnerAddresses` strings: specification.go:280, 504) while the KEY of an entry is built from
-`f` of the text (`IndexKeys()`: `sdk.AccAddressFromBech32(addrStr)` then
-`GetAddress…CacheKey(addr, id)`; specification.go:285-296, 529-549): the entries of the texts
-that are new are set, then the entries of the texts that are gone are deleted — also when
-another text with the same `f` stays. -/
+/-- HISTORICAL (the specification owner indexes BEFORE the repair 2f403d307): the same, for an
+index whose values were DIFFED AS TEXTS (`provutils.FindMissing` on the `OwnerAddresses` strings)
+while the KEY of an entry is built from `f` of the text (`IndexKeys()`:
+`sdk.AccAddressFromBech32(addrStr)` then `GetAddress…CacheKey(addr, id)`): the entries of the
+texts that are new were set, then the entries of the texts that are gone were deleted — also when
+another text with the same `f` stayed.  Used by the `…PreFix` definitions only. -/
 def reindexVia {γ β κ : Type} [DecidableEq γ] [DecidableEq β] [DecidableEq κ] (f : γ → β) (k : κ)
     (newVals oldVals : List γ) (idx : List (β × κ)) : List (β × κ) :=
   idelAll (((findMissing oldVals newVals).map f).map (fun b => (b, k)))
@@ -303,8 +303,10 @@ def optOwnersP (o : Option ScopeSpec) : List Addr := match o with | some s => s.
 def optCSpecs (o : Option ScopeSpec) : List UUID := match o with | some s => s.cspecs | none => []
 def optOwnersC (o : Option ContractSpec) : List Addr := match o with | some s => s.owners | none => []
 
-/-- `indexScopeSpecification` (specification.go:555-577): the owner entries are diffed as TEXTS
-and keyed by account (`reindexVia`); the contract-specification entries are diffed and keyed by id. -/
+/-- `indexScopeSpecification` (specification.go:569-591, the current code, i.e. after the repair
+2f403d307): `findMissingOwners` (specification.go:253-265) keeps the owner texts of one side no
+text of the other side decodes to the same ACCOUNT, `IndexKeys()` keys them by account — i.e. the
+owner entries are diffed and keyed by account; the contract-specification entries by id. -/
 def indexScopeSpecification (st : State) (newSpec oldSpec : Option ScopeSpec) : State :=
   match newSpec, oldSpec with
   | none, none => st
@@ -314,7 +316,7 @@ def indexScopeSpecification (st : State) (newSpec oldSpec : Option ScopeSpec) : 
       | none, some o => o.id
       | none, none => ""
     { st with
-      idxAddrScopeSpec := reindexVia B id (optOwnersP newSpec) (optOwnersP oldSpec) st.idxAddrScopeSpec
+      idxAddrScopeSpec := reindex id ((optOwnersP newSpec).map B) ((optOwnersP oldSpec).map B) st.idxAddrScopeSpec
       idxCSpecScopeSpec := reindex id (optCSpecs newSpec) (optCSpecs oldSpec) st.idxCSpecScopeSpec }
 
 /-- `SetScopeSpecification` (specification.go:433-452) -/
@@ -334,8 +336,8 @@ def removeScopeSpecification (st : State) (id : UUID) : Except Err State :=
       let st := indexScopeSpecification B st none (some sp)
       .ok { st with scopeSpecs := kdel (·.id) id st.scopeSpecs }
 
-/-- `indexContractSpecification` (specification.go:308-329): owner entries diffed as TEXTS, keyed
-by account (`reindexVia`). -/
+/-- `indexContractSpecification` (specification.go:322-343, the current code, i.e. after the
+repair 2f403d307): owner entries diffed and keyed by ACCOUNT (`findMissingOwners`). -/
 def indexContractSpecification (st : State) (newSpec oldSpec : Option ContractSpec) : State :=
   match newSpec, oldSpec with
   | none, none => st
@@ -344,12 +346,28 @@ def indexContractSpecification (st : State) (newSpec oldSpec : Option ContractSp
       | some n, _ => n.id
       | none, some o => o.id
       | none, none => ""
-    { st with idxAddrCSpec := reindexVia B id (optOwnersC newSpec) (optOwnersC oldSpec) st.idxAddrCSpec }
+    { st with idxAddrCSpec := reindex id ((optOwnersC newSpec).map B) ((optOwnersC oldSpec).map B) st.idxAddrCSpec }
 
 /-- `SetContractSpecification` (specification.go:218-237) -/
 def setContractSpecification (st : State) (sp : ContractSpec) : State :=
   let oldSpec := kget (·.id) st.contractSpecs sp.id
   indexContractSpecification B { st with contractSpecs := kput (·.id) sp st.contractSpecs } (some sp) oldSpec
+
+/-- HISTORICAL: `SetContractSpecification` / `SetScopeSpecification` as they were BEFORE the
+repair 2f403d307 (specification.go:271-329, 495-577 at 61d0c0d39): `getMissing…IndexValues` diffed
+`OwnerAddresses` as STRINGS (`provutils.FindMissing`) while `IndexKeys()` keyed by the decoded
+account, adds first, removals second — re-writing a specification with an owner re-spelled set
+and then deleted the same key.  Kept for the witness theorems `…_before_fix` only. -/
+def setContractSpecificationPreFix (st : State) (sp : ContractSpec) : State :=
+  let oldSpec := kget (·.id) st.contractSpecs sp.id
+  { st with contractSpecs := kput (·.id) sp st.contractSpecs
+            idxAddrCSpec := reindexVia B sp.id sp.owners (optOwnersC oldSpec) st.idxAddrCSpec }
+
+def setScopeSpecificationPreFix (st : State) (sp : ScopeSpec) : State :=
+  let oldSpec := kget (·.id) st.scopeSpecs sp.id
+  { st with scopeSpecs := kput (·.id) sp st.scopeSpecs
+            idxAddrScopeSpec := reindexVia B sp.id sp.owners (optOwnersP oldSpec) st.idxAddrScopeSpec
+            idxCSpecScopeSpec := reindex sp.id sp.cspecs (optCSpecs oldSpec) st.idxCSpecScopeSpec }
 
 /-- `isRecordSpecUsed` (specification.go:160-163): `// TODO`, always false -/
 def isRecordSpecUsed (_st : State) (_id : RecSpecId) : Bool := false
